@@ -21,7 +21,7 @@
     empty for these escapes; everything else about such strings (extent, position, verdict) is claimed. *)
 From Coq Require Import List NArith ZArith Bool.
 From ApiFu Require Import Base.Sexp Lex.Utf8 Lex.LexModel Lex.LexSpec Lex.LexRel
-  Lex.LexProgress Lex.LexMode Lex.BlockProofs Lex.LexRefine Lex.LexWitness.
+  Lex.LexProgress Lex.LexMode Lex.BlockProofs Lex.LexRefine Lex.LexValid Lex.LexWitness.
 Import ListNotations.
 Open Scope Z_scope.
 
@@ -42,6 +42,22 @@ Proof. exact lex_partition. Qed.
 Theorem C07_lex_mode : forall bs ts es,
   lex true bs = Done ts es -> lex false bs = Done (significant_tokens ts) es.
 Proof. exact lex_mode. Qed.
+
+(** never a silently different value, for every byte string: when the scanner reports no error,
+    the input is valid UTF-8, the grammar tokenises it, and the scanner's tokens ARE the grammar's
+    tokens — kinds (Int vs Float by longest match, names, punctuators, ignored tokens), byte extents,
+    lines and columns, literals, decoded string values (escapes, \uXXXX, BlockStringValue) *)
+Theorem C07_lex_sound_bytes : forall bs ts,
+  lex true bs = Done ts [] ->
+  exists cps stoks, utf8_decode bs = Some cps /\ spec_lex cps = (stoks, EndOk) /\
+                    ts = map token_of_stoken stoks /\
+                    excl_dangling_exponent cps stoks = false /\ excl_inner_bom stoks = false.
+Proof. exact lex_sound_bytes. Qed.
+
+(** a source text that is not valid UTF-8 always produces an error *)
+Theorem C07_lex_invalid_utf8_rejected : forall bs,
+  utf8_decode bs = None -> exists ts es, lex true bs = Done ts es /\ es <> [].
+Proof. exact lex_invalid_utf8_rejected. Qed.
 
 (** block strings undergo exactly the BlockStringValue algorithm: the transcription of the Go
     function equals the specification's algorithm on ALL raw values ... *)
@@ -69,10 +85,7 @@ Theorem C07_lex_positions : forall m bs cps ts es,
                              (t_line t, t_col t) = advance_pos (1, 1) n cps) ts.
 Proof. exact lex_positions. Qed.
 
-(** never a silently different value: when the scanner reports no error, its tokens ARE the
-    grammar's tokenisation — kinds (Int vs Float by longest match, names, punctuators, ignored
-    tokens), byte extents, lines and columns, literals, decoded string values (escapes, \uXXXX,
-    BlockStringValue) *)
+(** the same soundness, stated from the decoded text *)
 Theorem C07_lex_sound : forall bs cps ts,
   utf8_decode bs = Some cps -> lex true bs = Done ts [] ->
   exists stoks, spec_lex cps = (stoks, EndOk) /\ ts = map token_of_stoken stoks /\
@@ -147,6 +160,8 @@ Proof. exact read_next_rune_refuted_before_fix. Qed.
 Print Assumptions C07_lex_progress.
 Print Assumptions C07_lex_partition.
 Print Assumptions C07_lex_mode.
+Print Assumptions C07_lex_sound_bytes.
+Print Assumptions C07_lex_invalid_utf8_rejected.
 Print Assumptions C07_block_value_eq.
 Print Assumptions C07_block_value_utf8.
 Print Assumptions C07_spec_lex_total.
